@@ -15,7 +15,7 @@ for d in "$DIR"/*.diff; do
   name=$(basename $d .diff)
   wt=/tmp/mut_${id}_$$
   git -C /repo worktree add -q --detach $wt HEAD || { echo "$name: worktree failed"; continue; }
-  if ! git -C $wt apply $d 2>/tmp/mut_apply_$$.err; then echo "$name: DOES-NOT-APPLY $(head -1 /tmp/mut_apply_$$.err)"; git -C /repo worktree remove --force $wt; continue; fi
+  if ! git -C $wt apply $d 2>/tmp/mut_apply_$$.err && ! git -C $wt apply --3way $d 2>>/tmp/mut_apply_$$.err; then echo "$name: DOES-NOT-APPLY $(head -1 /tmp/mut_apply_$$.err)"; git -C /repo worktree remove --force $wt; continue; fi
   if ! (cd $wt && go build ./... 2>/dev/null); then echo "$name: DOES-NOT-COMPILE"; git -C /repo worktree remove --force $wt; continue; fi
   out=$(VERIF_REPO=$wt /verif/check $ID 2>&1)
   rc=$?
